@@ -1,6 +1,7 @@
 // @id C04.entry_equiv
 // @engine B
 // @entry vfh_C04_entry_equiv
+// @shared_state_watch
 // @tier Q
 // @reach entry.compared
 // @funcs IPhreeqc::RunString; IPhreeqc::RunFile; IPhreeqc::RunAccumulated; IPhreeqc::AccumulateLine; IPhreeqc::check_database
